@@ -17,30 +17,41 @@ variable {K : Type} [Field K]
 /-- `rotation_matrix(angle, u)` is a proper rotation for every angle and unit axis -/
 theorem C19_rotation_matrix_is_rotation (c s u1 u2 u3 : K) (hcs : c ^ 2 + s ^ 2 = 1)
     (hu : u1 ^ 2 + u2 ^ 2 + u3 ^ 2 = 1) : (rot c s u1 u2 u3).IsRotation := by
-  sorry
+  have e : ∀ a b : K, rot a b u1 u2 u3 = rotM a b u1 u2 u3 := fun a b => by
+    apply M3.ext' <;> simp only [rot, rotM] <;> ring
+  rw [e]; exact rotM_isRotation c s u1 u2 u3 hcs hu
 
 /-- it leaves its axis fixed -/
 theorem C19_rotation_fixes_axis (c s u1 u2 u3 : K) (hcs : c ^ 2 + s ^ 2 = 1)
     (hu : u1 ^ 2 + u2 ^ 2 + u3 ^ 2 = 1) : (rot c s u1 u2 u3).apply (u1, u2, u3) = (u1, u2, u3) := by
-  sorry
+  have e : ∀ a b : K, rot a b u1 u2 u3 = rotM a b u1 u2 u3 := fun a b => by
+    apply M3.ext' <;> simp only [rot, rotM] <;> ring
+  have _ := hcs  -- (not needed: the axis is fixed for every (c, s))
+  rw [e]; exact rotM_apply_axis c s u1 u2 u3 hu
 
 /-- rotating about a point leaves that point fixed: `R p + t = p` -/
 theorem C19_rotation_about_point_fixes_it (c s u1 u2 u3 p1 p2 p3 : K) :
     let Rp := (rot c s u1 u2 u3).apply (p1, p2, p3)
     (Rp.1 + rotPointT0 c s u1 u2 u3 p1 p2 p3, Rp.2.1 + rotPointT1 c s u1 u2 u3 p1 p2 p3,
      Rp.2.2 + rotPointT2 c s u1 u2 u3 p1 p2 p3) = (p1, p2, p3) := by
-  sorry
+  intro Rp
+  simp only [Rp, M3.apply, rot, rotPointT0, rotPointT1, rotPointT2, Prod.mk.injEq]
+  refine ⟨?_, ?_, ?_⟩ <;> ring
 
 /-! ### quaternions (`t` is the square of the normalisation factor: `t · |q|² = 2`) -/
 
 /-- `quaternion_matrix(q)` is a proper rotation for every non-zero quaternion -/
 theorem C19_quaternion_matrix_is_rotation (t w x y z : K) (ht : t * (w ^ 2 + x ^ 2 + y ^ 2 + z ^ 2) = 2) :
     (quatM t w x y z).IsRotation := by
-  sorry
+  have eq : ∀ t w x y z : K, quatM t w x y z = qM t w x y z := fun t w x y z => by
+    apply M3.ext' <;> simp only [quatM, qM] <;> ring
+  rw [eq]; exact qM_isRotation t w x y z ht
 
 /-- `q` and `-q` give the same matrix -/
 theorem C19_quaternion_sign (t w x y z : K) : quatM t (-w) (-x) (-y) (-z) = quatM t w x y z := by
-  sorry
+  have eq : ∀ t w x y z : K, quatM t w x y z = qM t w x y z := fun t w x y z => by
+    apply M3.ext' <;> simp only [quatM, qM] <;> ring
+  rw [eq, eq]; exact qM_neg t w x y z
 
 /-- `quaternion_multiply` is multiplicative on matrices: `M(q1 * q0) = M(q1) · M(q0)` -/
 theorem C19_quaternion_multiply (t1 w1 x1 y1 z1 t0 w0 x0 y0 z0 : K)
@@ -50,12 +61,38 @@ theorem C19_quaternion_multiply (t1 w1 x1 y1 z1 t0 w0 x0 y0 z0 : K)
       = quatM t1 w1 x1 y1 z1 * quatM t0 w0 x0 y0 z0 := by
   sorry
 
+/- NOTE (prover): `C19_quaternion_multiply` as stated is FALSE in characteristic 2 (there `2 = 0`, so
+   `t * |q|² = 2` no longer forces the normalisation and `t1 * t0 / 2 = 0`): over `ZMod 2` take
+   `t1 = 1, q1 = (1,1,0,0), t0 = 0, q0 = (0,0,0,0)`; the left side is the identity, the right side is
+   `[[1,0,0],[0,0,1],[0,1,0]]`.  With the extra hypothesis `(2 : K) ≠ 0` it is provable: -/
+example (h2 : (2 : K) ≠ 0) (t1 w1 x1 y1 z1 t0 w0 x0 y0 z0 : K)
+    (h1 : t1 * (w1 ^ 2 + x1 ^ 2 + y1 ^ 2 + z1 ^ 2) = 2) (h0 : t0 * (w0 ^ 2 + x0 ^ 2 + y0 ^ 2 + z0 ^ 2) = 2) :
+    quatM (t1 * t0 / 2) (quatMul0 w1 x1 y1 z1 w0 x0 y0 z0) (quatMul1 w1 x1 y1 z1 w0 x0 y0 z0)
+        (quatMul2 w1 x1 y1 z1 w0 x0 y0 z0) (quatMul3 w1 x1 y1 z1 w0 x0 y0 z0)
+      = quatM t1 w1 x1 y1 z1 * quatM t0 w0 x0 y0 z0 := by
+  have eq : ∀ t w x y z : K, quatM t w x y z = qM t w x y z := fun t w x y z => by
+    apply M3.ext' <;> simp only [quatM, qM] <;> ring
+  have e0 : quatMul0 w1 x1 y1 z1 w0 x0 y0 z0 = (Q.mul ⟨w1, x1, y1, z1⟩ ⟨w0, x0, y0, z0⟩).w := by
+    simp only [quatMul0, Q.mul]; ring
+  have e1 : quatMul1 w1 x1 y1 z1 w0 x0 y0 z0 = (Q.mul ⟨w1, x1, y1, z1⟩ ⟨w0, x0, y0, z0⟩).x := by
+    simp only [quatMul1, Q.mul]; ring
+  have e2 : quatMul2 w1 x1 y1 z1 w0 x0 y0 z0 = (Q.mul ⟨w1, x1, y1, z1⟩ ⟨w0, x0, y0, z0⟩).y := by
+    simp only [quatMul2, Q.mul]; ring
+  have e3 : quatMul3 w1 x1 y1 z1 w0 x0 y0 z0 = (Q.mul ⟨w1, x1, y1, z1⟩ ⟨w0, x0, y0, z0⟩).z := by
+    simp only [quatMul3, Q.mul]; ring
+  rw [eq, eq, eq, e0, e1, e2, e3]
+  exact qM_mul h2 t1 w1 x1 y1 z1 t0 w0 x0 y0 z0 h1 h0
+
 /-- the quaternion `(cos(a/2), u·sin(a/2))` of an axis-angle pair gives `rotation_matrix(a, u)`
     (half-angle symbols `ch, sh`; `cos a = ch² − sh²`, `sin a = 2·sh·ch`) -/
 theorem C19_axis_angle_quaternion (ch sh u1 u2 u3 : K) (hcs : ch ^ 2 + sh ^ 2 = 1)
     (hu : u1 ^ 2 + u2 ^ 2 + u3 ^ 2 = 1) :
     quatM 2 ch (u1 * sh) (u2 * sh) (u3 * sh) = rot (ch ^ 2 - sh ^ 2) (2 * sh * ch) u1 u2 u3 := by
-  sorry
+  have e : ∀ a b : K, rot a b u1 u2 u3 = rotM a b u1 u2 u3 := fun a b => by
+    apply M3.ext' <;> simp only [rot, rotM] <;> ring
+  have eq : ∀ t w x y z : K, quatM t w x y z = qM t w x y z := fun t w x y z => by
+    apply M3.ext' <;> simp only [quatM, qM] <;> ring
+  rw [e, eq]; exact qM_axis_angle ch sh u1 u2 u3 hcs hu
 
 /-! ### the 24 Euler conventions: `euler_matrix` is the product of the three elementary rotations in the
 order and frame the convention's name says (static frame `s`: later rotations multiply on the left;
@@ -63,109 +100,117 @@ rotating frame `r`: on the right) -/
 
 theorem C19_euler_rxyx (c_i s_i c_j s_j c_k s_k : K) :
     euler_rxyx c_i s_i c_j s_j c_k s_k = Rx c_i s_i * (Ry c_j s_j) * (Rx c_k s_k) := by
-  sorry
+  apply M3.ext' <;> simp only [euler_rxyx, Rx, Ry, M3.mul_def, M3.mul] <;> ring
 
 theorem C19_euler_rxyz (c_i s_i c_j s_j c_k s_k : K) :
     euler_rxyz c_i s_i c_j s_j c_k s_k = Rx c_i s_i * (Ry c_j s_j) * (Rz c_k s_k) := by
-  sorry
+  apply M3.ext' <;> simp only [euler_rxyz, Rx, Ry, Rz, M3.mul_def, M3.mul] <;> ring
 
 theorem C19_euler_rxzx (c_i s_i c_j s_j c_k s_k : K) :
     euler_rxzx c_i s_i c_j s_j c_k s_k = Rx c_i s_i * (Rz c_j s_j) * (Rx c_k s_k) := by
-  sorry
+  apply M3.ext' <;> simp only [euler_rxzx, Rx, Rz, M3.mul_def, M3.mul] <;> ring
 
 theorem C19_euler_rxzy (c_i s_i c_j s_j c_k s_k : K) :
     euler_rxzy c_i s_i c_j s_j c_k s_k = Rx c_i s_i * (Rz c_j s_j) * (Ry c_k s_k) := by
-  sorry
+  apply M3.ext' <;> simp only [euler_rxzy, Rx, Ry, Rz, M3.mul_def, M3.mul] <;> ring
 
 theorem C19_euler_ryxy (c_i s_i c_j s_j c_k s_k : K) :
     euler_ryxy c_i s_i c_j s_j c_k s_k = Ry c_i s_i * (Rx c_j s_j) * (Ry c_k s_k) := by
-  sorry
+  apply M3.ext' <;> simp only [euler_ryxy, Rx, Ry, M3.mul_def, M3.mul] <;> ring
 
 theorem C19_euler_ryxz (c_i s_i c_j s_j c_k s_k : K) :
     euler_ryxz c_i s_i c_j s_j c_k s_k = Ry c_i s_i * (Rx c_j s_j) * (Rz c_k s_k) := by
-  sorry
+  apply M3.ext' <;> simp only [euler_ryxz, Rx, Ry, Rz, M3.mul_def, M3.mul] <;> ring
 
 theorem C19_euler_ryzx (c_i s_i c_j s_j c_k s_k : K) :
     euler_ryzx c_i s_i c_j s_j c_k s_k = Ry c_i s_i * (Rz c_j s_j) * (Rx c_k s_k) := by
-  sorry
+  apply M3.ext' <;> simp only [euler_ryzx, Rx, Ry, Rz, M3.mul_def, M3.mul] <;> ring
 
 theorem C19_euler_ryzy (c_i s_i c_j s_j c_k s_k : K) :
     euler_ryzy c_i s_i c_j s_j c_k s_k = Ry c_i s_i * (Rz c_j s_j) * (Ry c_k s_k) := by
-  sorry
+  apply M3.ext' <;> simp only [euler_ryzy, Ry, Rz, M3.mul_def, M3.mul] <;> ring
 
 theorem C19_euler_rzxy (c_i s_i c_j s_j c_k s_k : K) :
     euler_rzxy c_i s_i c_j s_j c_k s_k = Rz c_i s_i * (Rx c_j s_j) * (Ry c_k s_k) := by
-  sorry
+  apply M3.ext' <;> simp only [euler_rzxy, Rx, Ry, Rz, M3.mul_def, M3.mul] <;> ring
 
 theorem C19_euler_rzxz (c_i s_i c_j s_j c_k s_k : K) :
     euler_rzxz c_i s_i c_j s_j c_k s_k = Rz c_i s_i * (Rx c_j s_j) * (Rz c_k s_k) := by
-  sorry
+  apply M3.ext' <;> simp only [euler_rzxz, Rx, Rz, M3.mul_def, M3.mul] <;> ring
 
 theorem C19_euler_rzyx (c_i s_i c_j s_j c_k s_k : K) :
     euler_rzyx c_i s_i c_j s_j c_k s_k = Rz c_i s_i * (Ry c_j s_j) * (Rx c_k s_k) := by
-  sorry
+  apply M3.ext' <;> simp only [euler_rzyx, Rx, Ry, Rz, M3.mul_def, M3.mul] <;> ring
 
 theorem C19_euler_rzyz (c_i s_i c_j s_j c_k s_k : K) :
     euler_rzyz c_i s_i c_j s_j c_k s_k = Rz c_i s_i * (Ry c_j s_j) * (Rz c_k s_k) := by
-  sorry
+  apply M3.ext' <;> simp only [euler_rzyz, Ry, Rz, M3.mul_def, M3.mul] <;> ring
 
 theorem C19_euler_sxyx (c_i s_i c_j s_j c_k s_k : K) :
     euler_sxyx c_i s_i c_j s_j c_k s_k = Rx c_k s_k * (Ry c_j s_j) * (Rx c_i s_i) := by
-  sorry
+  apply M3.ext' <;> simp only [euler_sxyx, Rx, Ry, M3.mul_def, M3.mul] <;> ring
 
 theorem C19_euler_sxyz (c_i s_i c_j s_j c_k s_k : K) :
     euler_sxyz c_i s_i c_j s_j c_k s_k = Rz c_k s_k * (Ry c_j s_j) * (Rx c_i s_i) := by
-  sorry
+  apply M3.ext' <;> simp only [euler_sxyz, Rx, Ry, Rz, M3.mul_def, M3.mul] <;> ring
 
 theorem C19_euler_sxzx (c_i s_i c_j s_j c_k s_k : K) :
     euler_sxzx c_i s_i c_j s_j c_k s_k = Rx c_k s_k * (Rz c_j s_j) * (Rx c_i s_i) := by
-  sorry
+  apply M3.ext' <;> simp only [euler_sxzx, Rx, Rz, M3.mul_def, M3.mul] <;> ring
 
 theorem C19_euler_sxzy (c_i s_i c_j s_j c_k s_k : K) :
     euler_sxzy c_i s_i c_j s_j c_k s_k = Ry c_k s_k * (Rz c_j s_j) * (Rx c_i s_i) := by
-  sorry
+  apply M3.ext' <;> simp only [euler_sxzy, Rx, Ry, Rz, M3.mul_def, M3.mul] <;> ring
 
 theorem C19_euler_syxy (c_i s_i c_j s_j c_k s_k : K) :
     euler_syxy c_i s_i c_j s_j c_k s_k = Ry c_k s_k * (Rx c_j s_j) * (Ry c_i s_i) := by
-  sorry
+  apply M3.ext' <;> simp only [euler_syxy, Rx, Ry, M3.mul_def, M3.mul] <;> ring
 
 theorem C19_euler_syxz (c_i s_i c_j s_j c_k s_k : K) :
     euler_syxz c_i s_i c_j s_j c_k s_k = Rz c_k s_k * (Rx c_j s_j) * (Ry c_i s_i) := by
-  sorry
+  apply M3.ext' <;> simp only [euler_syxz, Rx, Ry, Rz, M3.mul_def, M3.mul] <;> ring
 
 theorem C19_euler_syzx (c_i s_i c_j s_j c_k s_k : K) :
     euler_syzx c_i s_i c_j s_j c_k s_k = Rx c_k s_k * (Rz c_j s_j) * (Ry c_i s_i) := by
-  sorry
+  apply M3.ext' <;> simp only [euler_syzx, Rx, Ry, Rz, M3.mul_def, M3.mul] <;> ring
 
 theorem C19_euler_syzy (c_i s_i c_j s_j c_k s_k : K) :
     euler_syzy c_i s_i c_j s_j c_k s_k = Ry c_k s_k * (Rz c_j s_j) * (Ry c_i s_i) := by
-  sorry
+  apply M3.ext' <;> simp only [euler_syzy, Ry, Rz, M3.mul_def, M3.mul] <;> ring
 
 theorem C19_euler_szxy (c_i s_i c_j s_j c_k s_k : K) :
     euler_szxy c_i s_i c_j s_j c_k s_k = Ry c_k s_k * (Rx c_j s_j) * (Rz c_i s_i) := by
-  sorry
+  apply M3.ext' <;> simp only [euler_szxy, Rx, Ry, Rz, M3.mul_def, M3.mul] <;> ring
 
 theorem C19_euler_szxz (c_i s_i c_j s_j c_k s_k : K) :
     euler_szxz c_i s_i c_j s_j c_k s_k = Rz c_k s_k * (Rx c_j s_j) * (Rz c_i s_i) := by
-  sorry
+  apply M3.ext' <;> simp only [euler_szxz, Rx, Rz, M3.mul_def, M3.mul] <;> ring
 
 theorem C19_euler_szyx (c_i s_i c_j s_j c_k s_k : K) :
     euler_szyx c_i s_i c_j s_j c_k s_k = Rx c_k s_k * (Ry c_j s_j) * (Rz c_i s_i) := by
-  sorry
+  apply M3.ext' <;> simp only [euler_szyx, Rx, Ry, Rz, M3.mul_def, M3.mul] <;> ring
 
 theorem C19_euler_szyz (c_i s_i c_j s_j c_k s_k : K) :
     euler_szyz c_i s_i c_j s_j c_k s_k = Rz c_k s_k * (Ry c_j s_j) * (Rz c_i s_i) := by
-  sorry
+  apply M3.ext' <;> simp only [euler_szyz, Ry, Rz, M3.mul_def, M3.mul] <;> ring
 
 /-- hence every produced Euler matrix is a proper rotation (shown for all conventions through the
     elementary factors) -/
 theorem C19_elementary_rotations (c s : K) (h : c ^ 2 + s ^ 2 = 1) :
     (Rx c s).IsRotation ∧ (Ry c s).IsRotation ∧ (Rz c s).IsRotation := by
-  sorry
+  exact ⟨Rx_isRotation c s h, Ry_isRotation c s h, Rz_isRotation c s h⟩
 
 /-- products of proper rotations are proper rotations -/
 theorem C19_rotation_mul (a b : M3 K) (ha : a.IsRotation) (hb : b.IsRotation) : (a * b).IsRotation := by
-  sorry
+  exact ha.mul hb
+
+/-- closing step of the `quaternion_from_euler` theorems: the traced quaternion is (componentwise, as a
+    relation-free polynomial identity on the matrix entries) the product of three elementary half-angle
+    quaternions -/
+local macro "qfe_close" d0:ident d1:ident d2:ident d3:ident : tactic => `(tactic| (
+  apply M3.ext' <;>
+  simp only [quatM, $d0:ident, $d1:ident, $d2:ident, $d3:ident, UQ.rot, UQ.mul_val, UQ.ex_val, UQ.ey_val,
+    UQ.ez_val, Q.rot, Q.mul, qM] <;> ring))
 
 /-! ### `quaternion_from_euler` agrees with `euler_matrix` in every convention
 (half-angle symbols: `c = ch² − sh²`, `s = 2·sh·ch`) -/
@@ -176,7 +221,8 @@ theorem C19_quaternion_from_euler_rxyx (c_ih s_ih c_jh s_jh c_kh s_kh : K)
         (qfe_rxyx_2 c_ih s_ih c_jh s_jh c_kh s_kh) (qfe_rxyx_3 c_ih s_ih c_jh s_jh c_kh s_kh)
       = euler_rxyx (c_ih ^ 2 - s_ih ^ 2) (2 * s_ih * c_ih) (c_jh ^ 2 - s_jh ^ 2) (2 * s_jh * c_jh)
           (c_kh ^ 2 - s_kh ^ 2) (2 * s_kh * c_kh) := by
-  sorry
+  rw [C19_euler_rxyx, ← UQ.rot_ex hi, ← UQ.rot_ey hj, ← UQ.rot_ex hk, ← UQ.rot_mul, ← UQ.rot_mul]
+  qfe_close qfe_rxyx_0 qfe_rxyx_1 qfe_rxyx_2 qfe_rxyx_3
 
 theorem C19_quaternion_from_euler_rxyz (c_ih s_ih c_jh s_jh c_kh s_kh : K)
     (hi : c_ih ^ 2 + s_ih ^ 2 = 1) (hj : c_jh ^ 2 + s_jh ^ 2 = 1) (hk : c_kh ^ 2 + s_kh ^ 2 = 1) :
@@ -184,7 +230,8 @@ theorem C19_quaternion_from_euler_rxyz (c_ih s_ih c_jh s_jh c_kh s_kh : K)
         (qfe_rxyz_2 c_ih s_ih c_jh s_jh c_kh s_kh) (qfe_rxyz_3 c_ih s_ih c_jh s_jh c_kh s_kh)
       = euler_rxyz (c_ih ^ 2 - s_ih ^ 2) (2 * s_ih * c_ih) (c_jh ^ 2 - s_jh ^ 2) (2 * s_jh * c_jh)
           (c_kh ^ 2 - s_kh ^ 2) (2 * s_kh * c_kh) := by
-  sorry
+  rw [C19_euler_rxyz, ← UQ.rot_ex hi, ← UQ.rot_ey hj, ← UQ.rot_ez hk, ← UQ.rot_mul, ← UQ.rot_mul]
+  qfe_close qfe_rxyz_0 qfe_rxyz_1 qfe_rxyz_2 qfe_rxyz_3
 
 theorem C19_quaternion_from_euler_rxzx (c_ih s_ih c_jh s_jh c_kh s_kh : K)
     (hi : c_ih ^ 2 + s_ih ^ 2 = 1) (hj : c_jh ^ 2 + s_jh ^ 2 = 1) (hk : c_kh ^ 2 + s_kh ^ 2 = 1) :
@@ -192,7 +239,8 @@ theorem C19_quaternion_from_euler_rxzx (c_ih s_ih c_jh s_jh c_kh s_kh : K)
         (qfe_rxzx_2 c_ih s_ih c_jh s_jh c_kh s_kh) (qfe_rxzx_3 c_ih s_ih c_jh s_jh c_kh s_kh)
       = euler_rxzx (c_ih ^ 2 - s_ih ^ 2) (2 * s_ih * c_ih) (c_jh ^ 2 - s_jh ^ 2) (2 * s_jh * c_jh)
           (c_kh ^ 2 - s_kh ^ 2) (2 * s_kh * c_kh) := by
-  sorry
+  rw [C19_euler_rxzx, ← UQ.rot_ex hi, ← UQ.rot_ez hj, ← UQ.rot_ex hk, ← UQ.rot_mul, ← UQ.rot_mul]
+  qfe_close qfe_rxzx_0 qfe_rxzx_1 qfe_rxzx_2 qfe_rxzx_3
 
 theorem C19_quaternion_from_euler_rxzy (c_ih s_ih c_jh s_jh c_kh s_kh : K)
     (hi : c_ih ^ 2 + s_ih ^ 2 = 1) (hj : c_jh ^ 2 + s_jh ^ 2 = 1) (hk : c_kh ^ 2 + s_kh ^ 2 = 1) :
@@ -200,7 +248,8 @@ theorem C19_quaternion_from_euler_rxzy (c_ih s_ih c_jh s_jh c_kh s_kh : K)
         (qfe_rxzy_2 c_ih s_ih c_jh s_jh c_kh s_kh) (qfe_rxzy_3 c_ih s_ih c_jh s_jh c_kh s_kh)
       = euler_rxzy (c_ih ^ 2 - s_ih ^ 2) (2 * s_ih * c_ih) (c_jh ^ 2 - s_jh ^ 2) (2 * s_jh * c_jh)
           (c_kh ^ 2 - s_kh ^ 2) (2 * s_kh * c_kh) := by
-  sorry
+  rw [C19_euler_rxzy, ← UQ.rot_ex hi, ← UQ.rot_ez hj, ← UQ.rot_ey hk, ← UQ.rot_mul, ← UQ.rot_mul]
+  qfe_close qfe_rxzy_0 qfe_rxzy_1 qfe_rxzy_2 qfe_rxzy_3
 
 theorem C19_quaternion_from_euler_ryxy (c_ih s_ih c_jh s_jh c_kh s_kh : K)
     (hi : c_ih ^ 2 + s_ih ^ 2 = 1) (hj : c_jh ^ 2 + s_jh ^ 2 = 1) (hk : c_kh ^ 2 + s_kh ^ 2 = 1) :
@@ -208,7 +257,8 @@ theorem C19_quaternion_from_euler_ryxy (c_ih s_ih c_jh s_jh c_kh s_kh : K)
         (qfe_ryxy_2 c_ih s_ih c_jh s_jh c_kh s_kh) (qfe_ryxy_3 c_ih s_ih c_jh s_jh c_kh s_kh)
       = euler_ryxy (c_ih ^ 2 - s_ih ^ 2) (2 * s_ih * c_ih) (c_jh ^ 2 - s_jh ^ 2) (2 * s_jh * c_jh)
           (c_kh ^ 2 - s_kh ^ 2) (2 * s_kh * c_kh) := by
-  sorry
+  rw [C19_euler_ryxy, ← UQ.rot_ey hi, ← UQ.rot_ex hj, ← UQ.rot_ey hk, ← UQ.rot_mul, ← UQ.rot_mul]
+  qfe_close qfe_ryxy_0 qfe_ryxy_1 qfe_ryxy_2 qfe_ryxy_3
 
 theorem C19_quaternion_from_euler_ryxz (c_ih s_ih c_jh s_jh c_kh s_kh : K)
     (hi : c_ih ^ 2 + s_ih ^ 2 = 1) (hj : c_jh ^ 2 + s_jh ^ 2 = 1) (hk : c_kh ^ 2 + s_kh ^ 2 = 1) :
@@ -216,7 +266,8 @@ theorem C19_quaternion_from_euler_ryxz (c_ih s_ih c_jh s_jh c_kh s_kh : K)
         (qfe_ryxz_2 c_ih s_ih c_jh s_jh c_kh s_kh) (qfe_ryxz_3 c_ih s_ih c_jh s_jh c_kh s_kh)
       = euler_ryxz (c_ih ^ 2 - s_ih ^ 2) (2 * s_ih * c_ih) (c_jh ^ 2 - s_jh ^ 2) (2 * s_jh * c_jh)
           (c_kh ^ 2 - s_kh ^ 2) (2 * s_kh * c_kh) := by
-  sorry
+  rw [C19_euler_ryxz, ← UQ.rot_ey hi, ← UQ.rot_ex hj, ← UQ.rot_ez hk, ← UQ.rot_mul, ← UQ.rot_mul]
+  qfe_close qfe_ryxz_0 qfe_ryxz_1 qfe_ryxz_2 qfe_ryxz_3
 
 theorem C19_quaternion_from_euler_ryzx (c_ih s_ih c_jh s_jh c_kh s_kh : K)
     (hi : c_ih ^ 2 + s_ih ^ 2 = 1) (hj : c_jh ^ 2 + s_jh ^ 2 = 1) (hk : c_kh ^ 2 + s_kh ^ 2 = 1) :
@@ -224,7 +275,8 @@ theorem C19_quaternion_from_euler_ryzx (c_ih s_ih c_jh s_jh c_kh s_kh : K)
         (qfe_ryzx_2 c_ih s_ih c_jh s_jh c_kh s_kh) (qfe_ryzx_3 c_ih s_ih c_jh s_jh c_kh s_kh)
       = euler_ryzx (c_ih ^ 2 - s_ih ^ 2) (2 * s_ih * c_ih) (c_jh ^ 2 - s_jh ^ 2) (2 * s_jh * c_jh)
           (c_kh ^ 2 - s_kh ^ 2) (2 * s_kh * c_kh) := by
-  sorry
+  rw [C19_euler_ryzx, ← UQ.rot_ey hi, ← UQ.rot_ez hj, ← UQ.rot_ex hk, ← UQ.rot_mul, ← UQ.rot_mul]
+  qfe_close qfe_ryzx_0 qfe_ryzx_1 qfe_ryzx_2 qfe_ryzx_3
 
 theorem C19_quaternion_from_euler_ryzy (c_ih s_ih c_jh s_jh c_kh s_kh : K)
     (hi : c_ih ^ 2 + s_ih ^ 2 = 1) (hj : c_jh ^ 2 + s_jh ^ 2 = 1) (hk : c_kh ^ 2 + s_kh ^ 2 = 1) :
@@ -232,7 +284,8 @@ theorem C19_quaternion_from_euler_ryzy (c_ih s_ih c_jh s_jh c_kh s_kh : K)
         (qfe_ryzy_2 c_ih s_ih c_jh s_jh c_kh s_kh) (qfe_ryzy_3 c_ih s_ih c_jh s_jh c_kh s_kh)
       = euler_ryzy (c_ih ^ 2 - s_ih ^ 2) (2 * s_ih * c_ih) (c_jh ^ 2 - s_jh ^ 2) (2 * s_jh * c_jh)
           (c_kh ^ 2 - s_kh ^ 2) (2 * s_kh * c_kh) := by
-  sorry
+  rw [C19_euler_ryzy, ← UQ.rot_ey hi, ← UQ.rot_ez hj, ← UQ.rot_ey hk, ← UQ.rot_mul, ← UQ.rot_mul]
+  qfe_close qfe_ryzy_0 qfe_ryzy_1 qfe_ryzy_2 qfe_ryzy_3
 
 theorem C19_quaternion_from_euler_rzxy (c_ih s_ih c_jh s_jh c_kh s_kh : K)
     (hi : c_ih ^ 2 + s_ih ^ 2 = 1) (hj : c_jh ^ 2 + s_jh ^ 2 = 1) (hk : c_kh ^ 2 + s_kh ^ 2 = 1) :
@@ -240,7 +293,8 @@ theorem C19_quaternion_from_euler_rzxy (c_ih s_ih c_jh s_jh c_kh s_kh : K)
         (qfe_rzxy_2 c_ih s_ih c_jh s_jh c_kh s_kh) (qfe_rzxy_3 c_ih s_ih c_jh s_jh c_kh s_kh)
       = euler_rzxy (c_ih ^ 2 - s_ih ^ 2) (2 * s_ih * c_ih) (c_jh ^ 2 - s_jh ^ 2) (2 * s_jh * c_jh)
           (c_kh ^ 2 - s_kh ^ 2) (2 * s_kh * c_kh) := by
-  sorry
+  rw [C19_euler_rzxy, ← UQ.rot_ez hi, ← UQ.rot_ex hj, ← UQ.rot_ey hk, ← UQ.rot_mul, ← UQ.rot_mul]
+  qfe_close qfe_rzxy_0 qfe_rzxy_1 qfe_rzxy_2 qfe_rzxy_3
 
 theorem C19_quaternion_from_euler_rzxz (c_ih s_ih c_jh s_jh c_kh s_kh : K)
     (hi : c_ih ^ 2 + s_ih ^ 2 = 1) (hj : c_jh ^ 2 + s_jh ^ 2 = 1) (hk : c_kh ^ 2 + s_kh ^ 2 = 1) :
@@ -248,7 +302,8 @@ theorem C19_quaternion_from_euler_rzxz (c_ih s_ih c_jh s_jh c_kh s_kh : K)
         (qfe_rzxz_2 c_ih s_ih c_jh s_jh c_kh s_kh) (qfe_rzxz_3 c_ih s_ih c_jh s_jh c_kh s_kh)
       = euler_rzxz (c_ih ^ 2 - s_ih ^ 2) (2 * s_ih * c_ih) (c_jh ^ 2 - s_jh ^ 2) (2 * s_jh * c_jh)
           (c_kh ^ 2 - s_kh ^ 2) (2 * s_kh * c_kh) := by
-  sorry
+  rw [C19_euler_rzxz, ← UQ.rot_ez hi, ← UQ.rot_ex hj, ← UQ.rot_ez hk, ← UQ.rot_mul, ← UQ.rot_mul]
+  qfe_close qfe_rzxz_0 qfe_rzxz_1 qfe_rzxz_2 qfe_rzxz_3
 
 theorem C19_quaternion_from_euler_rzyx (c_ih s_ih c_jh s_jh c_kh s_kh : K)
     (hi : c_ih ^ 2 + s_ih ^ 2 = 1) (hj : c_jh ^ 2 + s_jh ^ 2 = 1) (hk : c_kh ^ 2 + s_kh ^ 2 = 1) :
@@ -256,7 +311,8 @@ theorem C19_quaternion_from_euler_rzyx (c_ih s_ih c_jh s_jh c_kh s_kh : K)
         (qfe_rzyx_2 c_ih s_ih c_jh s_jh c_kh s_kh) (qfe_rzyx_3 c_ih s_ih c_jh s_jh c_kh s_kh)
       = euler_rzyx (c_ih ^ 2 - s_ih ^ 2) (2 * s_ih * c_ih) (c_jh ^ 2 - s_jh ^ 2) (2 * s_jh * c_jh)
           (c_kh ^ 2 - s_kh ^ 2) (2 * s_kh * c_kh) := by
-  sorry
+  rw [C19_euler_rzyx, ← UQ.rot_ez hi, ← UQ.rot_ey hj, ← UQ.rot_ex hk, ← UQ.rot_mul, ← UQ.rot_mul]
+  qfe_close qfe_rzyx_0 qfe_rzyx_1 qfe_rzyx_2 qfe_rzyx_3
 
 theorem C19_quaternion_from_euler_rzyz (c_ih s_ih c_jh s_jh c_kh s_kh : K)
     (hi : c_ih ^ 2 + s_ih ^ 2 = 1) (hj : c_jh ^ 2 + s_jh ^ 2 = 1) (hk : c_kh ^ 2 + s_kh ^ 2 = 1) :
@@ -264,7 +320,8 @@ theorem C19_quaternion_from_euler_rzyz (c_ih s_ih c_jh s_jh c_kh s_kh : K)
         (qfe_rzyz_2 c_ih s_ih c_jh s_jh c_kh s_kh) (qfe_rzyz_3 c_ih s_ih c_jh s_jh c_kh s_kh)
       = euler_rzyz (c_ih ^ 2 - s_ih ^ 2) (2 * s_ih * c_ih) (c_jh ^ 2 - s_jh ^ 2) (2 * s_jh * c_jh)
           (c_kh ^ 2 - s_kh ^ 2) (2 * s_kh * c_kh) := by
-  sorry
+  rw [C19_euler_rzyz, ← UQ.rot_ez hi, ← UQ.rot_ey hj, ← UQ.rot_ez hk, ← UQ.rot_mul, ← UQ.rot_mul]
+  qfe_close qfe_rzyz_0 qfe_rzyz_1 qfe_rzyz_2 qfe_rzyz_3
 
 theorem C19_quaternion_from_euler_sxyx (c_ih s_ih c_jh s_jh c_kh s_kh : K)
     (hi : c_ih ^ 2 + s_ih ^ 2 = 1) (hj : c_jh ^ 2 + s_jh ^ 2 = 1) (hk : c_kh ^ 2 + s_kh ^ 2 = 1) :
@@ -272,7 +329,8 @@ theorem C19_quaternion_from_euler_sxyx (c_ih s_ih c_jh s_jh c_kh s_kh : K)
         (qfe_sxyx_2 c_ih s_ih c_jh s_jh c_kh s_kh) (qfe_sxyx_3 c_ih s_ih c_jh s_jh c_kh s_kh)
       = euler_sxyx (c_ih ^ 2 - s_ih ^ 2) (2 * s_ih * c_ih) (c_jh ^ 2 - s_jh ^ 2) (2 * s_jh * c_jh)
           (c_kh ^ 2 - s_kh ^ 2) (2 * s_kh * c_kh) := by
-  sorry
+  rw [C19_euler_sxyx, ← UQ.rot_ex hk, ← UQ.rot_ey hj, ← UQ.rot_ex hi, ← UQ.rot_mul, ← UQ.rot_mul]
+  qfe_close qfe_sxyx_0 qfe_sxyx_1 qfe_sxyx_2 qfe_sxyx_3
 
 theorem C19_quaternion_from_euler_sxyz (c_ih s_ih c_jh s_jh c_kh s_kh : K)
     (hi : c_ih ^ 2 + s_ih ^ 2 = 1) (hj : c_jh ^ 2 + s_jh ^ 2 = 1) (hk : c_kh ^ 2 + s_kh ^ 2 = 1) :
@@ -280,7 +338,8 @@ theorem C19_quaternion_from_euler_sxyz (c_ih s_ih c_jh s_jh c_kh s_kh : K)
         (qfe_sxyz_2 c_ih s_ih c_jh s_jh c_kh s_kh) (qfe_sxyz_3 c_ih s_ih c_jh s_jh c_kh s_kh)
       = euler_sxyz (c_ih ^ 2 - s_ih ^ 2) (2 * s_ih * c_ih) (c_jh ^ 2 - s_jh ^ 2) (2 * s_jh * c_jh)
           (c_kh ^ 2 - s_kh ^ 2) (2 * s_kh * c_kh) := by
-  sorry
+  rw [C19_euler_sxyz, ← UQ.rot_ez hk, ← UQ.rot_ey hj, ← UQ.rot_ex hi, ← UQ.rot_mul, ← UQ.rot_mul]
+  qfe_close qfe_sxyz_0 qfe_sxyz_1 qfe_sxyz_2 qfe_sxyz_3
 
 theorem C19_quaternion_from_euler_sxzx (c_ih s_ih c_jh s_jh c_kh s_kh : K)
     (hi : c_ih ^ 2 + s_ih ^ 2 = 1) (hj : c_jh ^ 2 + s_jh ^ 2 = 1) (hk : c_kh ^ 2 + s_kh ^ 2 = 1) :
@@ -288,7 +347,8 @@ theorem C19_quaternion_from_euler_sxzx (c_ih s_ih c_jh s_jh c_kh s_kh : K)
         (qfe_sxzx_2 c_ih s_ih c_jh s_jh c_kh s_kh) (qfe_sxzx_3 c_ih s_ih c_jh s_jh c_kh s_kh)
       = euler_sxzx (c_ih ^ 2 - s_ih ^ 2) (2 * s_ih * c_ih) (c_jh ^ 2 - s_jh ^ 2) (2 * s_jh * c_jh)
           (c_kh ^ 2 - s_kh ^ 2) (2 * s_kh * c_kh) := by
-  sorry
+  rw [C19_euler_sxzx, ← UQ.rot_ex hk, ← UQ.rot_ez hj, ← UQ.rot_ex hi, ← UQ.rot_mul, ← UQ.rot_mul]
+  qfe_close qfe_sxzx_0 qfe_sxzx_1 qfe_sxzx_2 qfe_sxzx_3
 
 theorem C19_quaternion_from_euler_sxzy (c_ih s_ih c_jh s_jh c_kh s_kh : K)
     (hi : c_ih ^ 2 + s_ih ^ 2 = 1) (hj : c_jh ^ 2 + s_jh ^ 2 = 1) (hk : c_kh ^ 2 + s_kh ^ 2 = 1) :
@@ -296,7 +356,8 @@ theorem C19_quaternion_from_euler_sxzy (c_ih s_ih c_jh s_jh c_kh s_kh : K)
         (qfe_sxzy_2 c_ih s_ih c_jh s_jh c_kh s_kh) (qfe_sxzy_3 c_ih s_ih c_jh s_jh c_kh s_kh)
       = euler_sxzy (c_ih ^ 2 - s_ih ^ 2) (2 * s_ih * c_ih) (c_jh ^ 2 - s_jh ^ 2) (2 * s_jh * c_jh)
           (c_kh ^ 2 - s_kh ^ 2) (2 * s_kh * c_kh) := by
-  sorry
+  rw [C19_euler_sxzy, ← UQ.rot_ey hk, ← UQ.rot_ez hj, ← UQ.rot_ex hi, ← UQ.rot_mul, ← UQ.rot_mul]
+  qfe_close qfe_sxzy_0 qfe_sxzy_1 qfe_sxzy_2 qfe_sxzy_3
 
 theorem C19_quaternion_from_euler_syxy (c_ih s_ih c_jh s_jh c_kh s_kh : K)
     (hi : c_ih ^ 2 + s_ih ^ 2 = 1) (hj : c_jh ^ 2 + s_jh ^ 2 = 1) (hk : c_kh ^ 2 + s_kh ^ 2 = 1) :
@@ -304,7 +365,8 @@ theorem C19_quaternion_from_euler_syxy (c_ih s_ih c_jh s_jh c_kh s_kh : K)
         (qfe_syxy_2 c_ih s_ih c_jh s_jh c_kh s_kh) (qfe_syxy_3 c_ih s_ih c_jh s_jh c_kh s_kh)
       = euler_syxy (c_ih ^ 2 - s_ih ^ 2) (2 * s_ih * c_ih) (c_jh ^ 2 - s_jh ^ 2) (2 * s_jh * c_jh)
           (c_kh ^ 2 - s_kh ^ 2) (2 * s_kh * c_kh) := by
-  sorry
+  rw [C19_euler_syxy, ← UQ.rot_ey hk, ← UQ.rot_ex hj, ← UQ.rot_ey hi, ← UQ.rot_mul, ← UQ.rot_mul]
+  qfe_close qfe_syxy_0 qfe_syxy_1 qfe_syxy_2 qfe_syxy_3
 
 theorem C19_quaternion_from_euler_syxz (c_ih s_ih c_jh s_jh c_kh s_kh : K)
     (hi : c_ih ^ 2 + s_ih ^ 2 = 1) (hj : c_jh ^ 2 + s_jh ^ 2 = 1) (hk : c_kh ^ 2 + s_kh ^ 2 = 1) :
@@ -312,7 +374,8 @@ theorem C19_quaternion_from_euler_syxz (c_ih s_ih c_jh s_jh c_kh s_kh : K)
         (qfe_syxz_2 c_ih s_ih c_jh s_jh c_kh s_kh) (qfe_syxz_3 c_ih s_ih c_jh s_jh c_kh s_kh)
       = euler_syxz (c_ih ^ 2 - s_ih ^ 2) (2 * s_ih * c_ih) (c_jh ^ 2 - s_jh ^ 2) (2 * s_jh * c_jh)
           (c_kh ^ 2 - s_kh ^ 2) (2 * s_kh * c_kh) := by
-  sorry
+  rw [C19_euler_syxz, ← UQ.rot_ez hk, ← UQ.rot_ex hj, ← UQ.rot_ey hi, ← UQ.rot_mul, ← UQ.rot_mul]
+  qfe_close qfe_syxz_0 qfe_syxz_1 qfe_syxz_2 qfe_syxz_3
 
 theorem C19_quaternion_from_euler_syzx (c_ih s_ih c_jh s_jh c_kh s_kh : K)
     (hi : c_ih ^ 2 + s_ih ^ 2 = 1) (hj : c_jh ^ 2 + s_jh ^ 2 = 1) (hk : c_kh ^ 2 + s_kh ^ 2 = 1) :
@@ -320,7 +383,8 @@ theorem C19_quaternion_from_euler_syzx (c_ih s_ih c_jh s_jh c_kh s_kh : K)
         (qfe_syzx_2 c_ih s_ih c_jh s_jh c_kh s_kh) (qfe_syzx_3 c_ih s_ih c_jh s_jh c_kh s_kh)
       = euler_syzx (c_ih ^ 2 - s_ih ^ 2) (2 * s_ih * c_ih) (c_jh ^ 2 - s_jh ^ 2) (2 * s_jh * c_jh)
           (c_kh ^ 2 - s_kh ^ 2) (2 * s_kh * c_kh) := by
-  sorry
+  rw [C19_euler_syzx, ← UQ.rot_ex hk, ← UQ.rot_ez hj, ← UQ.rot_ey hi, ← UQ.rot_mul, ← UQ.rot_mul]
+  qfe_close qfe_syzx_0 qfe_syzx_1 qfe_syzx_2 qfe_syzx_3
 
 theorem C19_quaternion_from_euler_syzy (c_ih s_ih c_jh s_jh c_kh s_kh : K)
     (hi : c_ih ^ 2 + s_ih ^ 2 = 1) (hj : c_jh ^ 2 + s_jh ^ 2 = 1) (hk : c_kh ^ 2 + s_kh ^ 2 = 1) :
@@ -328,7 +392,8 @@ theorem C19_quaternion_from_euler_syzy (c_ih s_ih c_jh s_jh c_kh s_kh : K)
         (qfe_syzy_2 c_ih s_ih c_jh s_jh c_kh s_kh) (qfe_syzy_3 c_ih s_ih c_jh s_jh c_kh s_kh)
       = euler_syzy (c_ih ^ 2 - s_ih ^ 2) (2 * s_ih * c_ih) (c_jh ^ 2 - s_jh ^ 2) (2 * s_jh * c_jh)
           (c_kh ^ 2 - s_kh ^ 2) (2 * s_kh * c_kh) := by
-  sorry
+  rw [C19_euler_syzy, ← UQ.rot_ey hk, ← UQ.rot_ez hj, ← UQ.rot_ey hi, ← UQ.rot_mul, ← UQ.rot_mul]
+  qfe_close qfe_syzy_0 qfe_syzy_1 qfe_syzy_2 qfe_syzy_3
 
 theorem C19_quaternion_from_euler_szxy (c_ih s_ih c_jh s_jh c_kh s_kh : K)
     (hi : c_ih ^ 2 + s_ih ^ 2 = 1) (hj : c_jh ^ 2 + s_jh ^ 2 = 1) (hk : c_kh ^ 2 + s_kh ^ 2 = 1) :
@@ -336,7 +401,8 @@ theorem C19_quaternion_from_euler_szxy (c_ih s_ih c_jh s_jh c_kh s_kh : K)
         (qfe_szxy_2 c_ih s_ih c_jh s_jh c_kh s_kh) (qfe_szxy_3 c_ih s_ih c_jh s_jh c_kh s_kh)
       = euler_szxy (c_ih ^ 2 - s_ih ^ 2) (2 * s_ih * c_ih) (c_jh ^ 2 - s_jh ^ 2) (2 * s_jh * c_jh)
           (c_kh ^ 2 - s_kh ^ 2) (2 * s_kh * c_kh) := by
-  sorry
+  rw [C19_euler_szxy, ← UQ.rot_ey hk, ← UQ.rot_ex hj, ← UQ.rot_ez hi, ← UQ.rot_mul, ← UQ.rot_mul]
+  qfe_close qfe_szxy_0 qfe_szxy_1 qfe_szxy_2 qfe_szxy_3
 
 theorem C19_quaternion_from_euler_szxz (c_ih s_ih c_jh s_jh c_kh s_kh : K)
     (hi : c_ih ^ 2 + s_ih ^ 2 = 1) (hj : c_jh ^ 2 + s_jh ^ 2 = 1) (hk : c_kh ^ 2 + s_kh ^ 2 = 1) :
@@ -344,7 +410,8 @@ theorem C19_quaternion_from_euler_szxz (c_ih s_ih c_jh s_jh c_kh s_kh : K)
         (qfe_szxz_2 c_ih s_ih c_jh s_jh c_kh s_kh) (qfe_szxz_3 c_ih s_ih c_jh s_jh c_kh s_kh)
       = euler_szxz (c_ih ^ 2 - s_ih ^ 2) (2 * s_ih * c_ih) (c_jh ^ 2 - s_jh ^ 2) (2 * s_jh * c_jh)
           (c_kh ^ 2 - s_kh ^ 2) (2 * s_kh * c_kh) := by
-  sorry
+  rw [C19_euler_szxz, ← UQ.rot_ez hk, ← UQ.rot_ex hj, ← UQ.rot_ez hi, ← UQ.rot_mul, ← UQ.rot_mul]
+  qfe_close qfe_szxz_0 qfe_szxz_1 qfe_szxz_2 qfe_szxz_3
 
 theorem C19_quaternion_from_euler_szyx (c_ih s_ih c_jh s_jh c_kh s_kh : K)
     (hi : c_ih ^ 2 + s_ih ^ 2 = 1) (hj : c_jh ^ 2 + s_jh ^ 2 = 1) (hk : c_kh ^ 2 + s_kh ^ 2 = 1) :
@@ -352,7 +419,8 @@ theorem C19_quaternion_from_euler_szyx (c_ih s_ih c_jh s_jh c_kh s_kh : K)
         (qfe_szyx_2 c_ih s_ih c_jh s_jh c_kh s_kh) (qfe_szyx_3 c_ih s_ih c_jh s_jh c_kh s_kh)
       = euler_szyx (c_ih ^ 2 - s_ih ^ 2) (2 * s_ih * c_ih) (c_jh ^ 2 - s_jh ^ 2) (2 * s_jh * c_jh)
           (c_kh ^ 2 - s_kh ^ 2) (2 * s_kh * c_kh) := by
-  sorry
+  rw [C19_euler_szyx, ← UQ.rot_ex hk, ← UQ.rot_ey hj, ← UQ.rot_ez hi, ← UQ.rot_mul, ← UQ.rot_mul]
+  qfe_close qfe_szyx_0 qfe_szyx_1 qfe_szyx_2 qfe_szyx_3
 
 theorem C19_quaternion_from_euler_szyz (c_ih s_ih c_jh s_jh c_kh s_kh : K)
     (hi : c_ih ^ 2 + s_ih ^ 2 = 1) (hj : c_jh ^ 2 + s_jh ^ 2 = 1) (hk : c_kh ^ 2 + s_kh ^ 2 = 1) :
@@ -360,7 +428,8 @@ theorem C19_quaternion_from_euler_szyz (c_ih s_ih c_jh s_jh c_kh s_kh : K)
         (qfe_szyz_2 c_ih s_ih c_jh s_jh c_kh s_kh) (qfe_szyz_3 c_ih s_ih c_jh s_jh c_kh s_kh)
       = euler_szyz (c_ih ^ 2 - s_ih ^ 2) (2 * s_ih * c_ih) (c_jh ^ 2 - s_jh ^ 2) (2 * s_jh * c_jh)
           (c_kh ^ 2 - s_kh ^ 2) (2 * s_kh * c_kh) := by
-  sorry
+  rw [C19_euler_szyz, ← UQ.rot_ez hk, ← UQ.rot_ey hj, ← UQ.rot_ez hi, ← UQ.rot_mul, ← UQ.rot_mul]
+  qfe_close qfe_szyz_0 qfe_szyz_1 qfe_szyz_2 qfe_szyz_3
 
 /-! ### points -/
 
@@ -375,7 +444,8 @@ theorem C19_transform_points (m00 m01 m02 m03 m10 m11 m12 m13 m20 m21 m22 m23 m3
     tp3r_2 m00 m01 m02 m03 m10 m11 m12 m13 m20 m21 m22 m23 m30 m31 m32 m33 x1 x2 x3 = m20 * x1 + m21 * x2 + m22 * x3 ∧
     tp2_0 n00 n01 n02 n10 n11 n12 n20 n21 n22 y1 y2 = n00 * y1 + n01 * y2 + n02 ∧
     tp2_1 n00 n01 n02 n10 n11 n12 n20 n21 n22 y1 y2 = n10 * y1 + n11 * y2 + n12 := by
-  sorry
+  simp only [tp3_0, tp3_1, tp3_2, tp3r_0, tp3r_1, tp3r_2, tp2_0, tp2_1]
+  refine ⟨?_, ?_, ?_, ?_, ?_, ?_, ?_, ?_⟩ <;> ring
 
 /-- (G) the axis table of the source still encodes the 24 conventions -/
 theorem C19_axes_table : axes2tuple.length = 24 ∧ nextAxis = [1, 2, 0, 1] := by decide
